@@ -178,6 +178,7 @@ package flags
 //@   loop 1 invariant 0 <= len(p.positional) && len(p.positional) <= len(old(p.positional)) && same(p.positional, old(p.positional)[len(old(p.positional))-len(p.positional):])
 //@   loop 1 invariant same(p.retargs, old(p.retargs)) && p.err == old(p.err) && p.arg == old(p.arg) && same(p.args, old(p.args))
 //@   loop 1 invariant ncalls(convert) == old(ncalls(convert)) + (len(old(args)) - len(args))
+//@   loop 1 invariant nfails(convert) == old(nfails(convert))
 //@   loop 1 invariant len(old(p.positional)) - len(p.positional) <= len(old(args)) - len(args)
 //@   loop 1 invariant forall(k, 0, len(old(args)) - len(args), callarg(convert, old(ncalls(convert)) + k, 0) == old(args)[k])
 //@   loop 1 invariant forall(k, 0, len(old(args)) - len(args), callarg(convert, old(ncalls(convert)) + k, 1) == old(p.positional)[ite(k < len(old(p.positional)) - len(p.positional), k, len(old(p.positional)) - len(p.positional))].value)
@@ -185,7 +186,8 @@ package flags
 //@   loop 1 invariant len(old(p.positional)) - len(p.positional) < len(old(args)) - len(args) ==> len(p.positional) > 0 && isRem(p.positional[0])
 //@   loop 1 decreases len(args)
 //@   let m := ncalls(convert) - old(ncalls(convert))
-//@   ensures[C03,C10] err != nil ==> p.err == err && same(p.retargs, old(p.retargs))
+//@   ensures[C03,C09,C10] err != nil ==> p.err == err && same(p.retargs, old(p.retargs))
+//@   ensures[C09,C10] nfails(convert) == old(nfails(convert)) + ite(err != nil, 1, 0)
 //@   ensures[C03,C10] err == nil ==> p.err == old(p.err)
 //@   ensures is(err, *Error) ==> as(err, *Error) != nil
 //@   ensures[C03,C10] 0 <= ncalls(convert) - old(ncalls(convert)) && ncalls(convert) - old(ncalls(convert)) <= len(args)
@@ -319,8 +321,8 @@ package flags
 //@   requires s != nil
 //@   let c, n := utf8.DecodeRuneInString(optname)
 //@   let o := s.lookup.shortNames[string(c)]
-//@   ensures[C02] n < len(optname) && o != nil && o.canArgument() ==> name == string(c) && arg != nil && *arg == optname[n:]
-//@   ensures[C02] !(n < len(optname) && o != nil && o.canArgument()) ==> name == optname && arg == nil
+//@   ensures[C01,C02] n < len(optname) && o != nil && o.canArgument() ==> name == string(c) && arg != nil && *arg == optname[n:]
+//@   ensures[C01,C02] !(n < len(optname) && o != nil && o.canArgument()) ==> name == optname && arg == nil
 //@   assigns nothing
 
 // parseShort: optname is a cluster of short options.  k0/o0 describe the first
@@ -452,7 +454,9 @@ package flags
 //@   let cr0 := ncalls(parseState.checkRequired)
 //@   let pl0 := ncalls(Parser.parseLong)
 //@   let ps0 := ncalls(Parser.parseShort)
+//@   let cv0 := nfails(convert)
 //@   let compl := os.Getenv("GO_FLAGS_COMPLETION") != ""
+//@   loop 2 invariant s.err == nil ==> nfails(convert) == old(nfails(convert))
 //@   loop 2 invariant s != nil && s.command != nil && lookupOK(s)
 //@   loop 2 invariant is(s.err, *Error) ==> as(s.err, *Error) != nil
 //@   loop 2 invariant forall(k, old(ncalls(Parser.parseLong)), ncalls(Parser.parseLong), okResult(p, callres(Parser.parseLong, k, 0)))
@@ -468,6 +472,7 @@ package flags
 //@   ensures[C09] ncalls(Commander.Execute) == e0 + 1 ==> calltime(parseState.checkRequired, cr0) < calltime(Commander.Execute, e0)
 //@   ensures[C09] ncalls(Parser.CommandHandler) == h0 + 1 ==> calltime(parseState.checkRequired, cr0) < calltime(Parser.CommandHandler, h0)
 //@   ensures[C09,C07] ncalls(Commander.Execute) + ncalls(Parser.CommandHandler) == e0 + h0 + 1 ==> forall(k, pl0, ncalls(Parser.parseLong), okResult(p, callres(Parser.parseLong, k, 0))) && forall(k, ps0, ncalls(Parser.parseShort), okResult(p, callres(Parser.parseShort, k, 0)))
+//@   ensures[C09,C10] ncalls(Commander.Execute) + ncalls(Parser.CommandHandler) == e0 + h0 + 1 ==> nfails(convert) == cv0
 //@   ensures[C04,C07] forall(k, pl0, ncalls(Parser.parseLong), !okResult(p, callres(Parser.parseLong, k, 0)) ==> err == callres(Parser.parseLong, k, 0))
 //@   ensures[C04,C07] forall(k, ps0, ncalls(Parser.parseShort), !okResult(p, callres(Parser.parseShort, k, 0)) ==> err == callres(Parser.parseShort, k, 0))
 //@   ensures[C04] ncalls(parseState.checkRequired) == cr0 + 1 && callres(parseState.checkRequired, cr0, 0) != nil ==> err == callres(parseState.checkRequired, cr0, 0)
